@@ -88,6 +88,7 @@ func checkC18(r *core.Run) {
 	}
 	c18NilKey(r, p)
 	c18Rings(r, p)
+	c18TxListMarker(r, p, "R-C18-nil")
 	// a panic in a goroutine started by the block parser cannot be recovered by the connection's handler (shared with C09)
 	c09Workers(r, p, "R-C18-bounds")
 	cfg := an.BoundsConfig{
@@ -413,4 +414,32 @@ func c18LockName(l string) string {
 		return l
 	}
 	return "$" + l[i:]
+}
+
+// c18TxListMarker: a block whose transactions have not been parsed (or whose copy was found corrupt and thrown
+// away) has Txs == nil - that is what the block checks test before parsing.  A non-nil empty list is taken for
+// "already parsed": the next copy of the block is checked against no transactions at all (the Merkle root of
+// an empty list indexes [-1]).  The peer message handlers (client/network) only ever assign nil to the
+// field Block.Txs.
+func c18TxListMarker(r *core.Run, p *core.Program, rule string) {
+	n := 0
+	for _, fn := range p.ModuleFuncs() {
+		name := core.FuncName(fn)
+		if !strings.Contains(name, "client/network.") {
+			continue // the peer message handlers; the miner's template builder and lib/btc build lists of their own
+		}
+		an.Instrs(fn, func(i ssa.Instruction) {
+			st, ok := i.(*ssa.Store)
+			if !ok {
+				return
+			}
+			if f, _ := an.FieldOf(st.Addr); f != "lib/btc.Block.Txs" {
+				return
+			}
+			n++
+			c, isC := st.Val.(*ssa.Const)
+			r.Check(isC && c.Value == nil, rule, "tx-list-marker/"+name, p.Pos(st.Pos()), "reset to nil (not parsed)", "the transaction list of a block is assigned "+an.Anon(an.Expr(st.Val))+" outside the list builder: anything but nil is taken for an already parsed list by the block checks")
+		})
+	}
+	r.Check(n >= 1, rule, "tx-list-marker/sites", "-", fmt.Sprintf("%d resets of a block's transaction list", n), "no reset of a block's transaction list found")
 }
